@@ -70,6 +70,7 @@ func cmdProve(args []string) {
 	thorough := fs.Bool("thorough", false, "confirm with a second solver")
 	prof := fs.String("cpuprofile", "", "write cpu profile")
 	simFlag := fs.Bool("sim", false, "enable the spec simulation driver")
+	relFlag := fs.Bool("rel", false, "enable the relational (scratch independence) driver")
 	fs.Parse(args)
 	if *prof != "" {
 		f, _ := os.Create(*prof)
@@ -94,7 +95,7 @@ func cmdProve(args []string) {
 			continue
 		}
 		fc := eng.contracts.Funcs[a]
-		fp := eng.NewFuncProof(f, fc, ProofOpts{Mode: *mode, QuickMs: 4000, SlowMs: 20000, Thorough: *thorough, Verbose: *verbose, Sim: *simFlag})
+		fp := eng.NewFuncProof(f, fc, ProofOpts{Mode: *mode, QuickMs: 4000, SlowMs: 20000, Thorough: *thorough, Verbose: *verbose, Sim: *simFlag, Rel: *relFlag})
 		fp.Run()
 		tot, dis := fp.ledger.Counts()
 		fmt.Printf("== %s [%s]: %d/%d obligations discharged; blocks=%d cuts=%d paths=%d cands=%d kept=%d rounds=%d queries=%d %.1fs\n",
